@@ -79,6 +79,13 @@ impl ToStringRoundingOptions {
                         rounding_mode,
                         increment: RoundingIncrement::ONE,
                     }),
+                    // The precision record "minute" (what smallestUnit: "minute" resolves to), given directly.
+                    Precision::Minute => Ok(ResolvedToStringRoundingOptions {
+                        precision: Precision::Minute,
+                        smallest_unit: Unit::Minute,
+                        rounding_mode,
+                        increment: RoundingIncrement::ONE,
+                    }),
                     Precision::Digit(0) => Ok(ResolvedToStringRoundingOptions {
                         precision: Precision::Digit(0),
                         smallest_unit: Unit::Second,
